@@ -93,7 +93,9 @@ class CachedStore(Entity):
 
         # Cache storage
         self._cache: dict[str, Any] = {}
-        self._dirty_keys: set[str] = set()  # For write-back
+        # For write-back.  Insertion-ordered (dict, not set) so that flush() writes keys back in
+        # the order they became dirty, independent of PYTHONHASHSEED.
+        self._dirty_keys: dict[str, None] = {}
 
         # Statistics
         self._reads = 0
@@ -203,7 +205,7 @@ class CachedStore(Entity):
             yield from self._backing_store.put(key, value)
         else:
             # Mark as dirty for later writeback
-            self._dirty_keys.add(key)
+            self._dirty_keys[key] = None
             yield self._cache_read_latency  # Just cache write latency
 
     def delete(self, key: str) -> Generator[float, None, bool]:
@@ -255,7 +257,7 @@ class CachedStore(Entity):
         for key in list(self._dirty_keys):
             if key in self._cache:
                 yield from self._backing_store.put(key, self._cache[key])
-                self._dirty_keys.discard(key)
+                self._dirty_keys.pop(key, None)
                 self._writebacks += 1
                 flushed += 1
         return flushed
@@ -269,7 +271,7 @@ class CachedStore(Entity):
                 if evict_key is None:
                     break
                 self._cache.pop(evict_key, None)
-                self._dirty_keys.discard(evict_key)
+                self._dirty_keys.pop(evict_key, None)
                 self._evictions += 1
 
             self._eviction_policy.on_insert(key)
@@ -281,7 +283,7 @@ class CachedStore(Entity):
     def _cache_remove(self, key: str) -> None:
         """Remove an entry from cache."""
         self._cache.pop(key, None)
-        self._dirty_keys.discard(key)
+        self._dirty_keys.pop(key, None)
         self._eviction_policy.on_remove(key)
 
     def contains_cached(self, key: str) -> bool:
